@@ -1209,7 +1209,14 @@ func hasMore(c *Ctx) hasMoreResult {
 		return nil
 	}
 	// the PerPage of a pagination object: (object in G's terms, ok)
-	perPageOf := func(v ssa.Value, sc scope) (ssa.Value, bool) {
+	var perPageOf func(v ssa.Value, sc scope) (ssa.Value, bool)
+	perPageOf = func(v ssa.Value, sc scope) (ssa.Value, bool) {
+		// a helper may be handed the page size itself
+		if par, ok := core.ValueOrigin(v).(*ssa.Parameter); ok && sc.bind != nil {
+			if a, ok := sc.bind[par]; ok {
+				return perPageOf(a, scope{fn: g})
+			}
+		}
 		u, ok := core.ValueOrigin(v).(*ssa.UnOp)
 		if !ok || u.Op != token.MUL {
 			return nil, false
@@ -1305,9 +1312,63 @@ func hasMore(c *Ctx) hasMoreResult {
 	if !limitOK {
 		res.bad = append(res.bad, "LIMIT is not the has-more threshold + 1 (the PerPage the rows are compared with is not the one the statement is limited by): for page sizes where they differ a full page has no token or a short page has one")
 	}
+	// a helper that cuts may report "there is more" through a boolean result: true exactly on the
+	// return that hands back the cut rows
+	flagIdx := -1
+	if ct.sc.call != nil {
+		nres := ct.sc.fn.Signature.Results().Len()
+		for k := 1; k < nres; k++ {
+			if !core.BoolType(ct.sc.fn.Signature.Results().At(k).Type()) {
+				continue
+			}
+			okFlag, nRet := true, 0
+			core.Instrs(ct.sc.fn, func(_ *ssa.BasicBlock, _ int, ins ssa.Instruction) {
+				ret, ok := ins.(*ssa.Return)
+				if !ok || len(ret.Results) <= k {
+					return
+				}
+				nRet++
+				kc, isK := ret.Results[k].(*ssa.Const)
+				if !isK || kc.Value == nil {
+					okFlag = false
+					return
+				}
+				isCut := ret.Results[0] == ssa.Value(ct.t)
+				if (kc.Value.String() == "true") != isCut {
+					okFlag = false
+				}
+			})
+			if okFlag && nRet > 0 {
+				flagIdx = k
+			}
+		}
+	}
+	underFlag := func(b *ssa.BasicBlock) bool {
+		if flagIdx < 0 {
+			return false
+		}
+		for _, cd := range core.CondsAt(b) {
+			v, truth := cd.V, cd.True
+			for {
+				u, isNot := v.(*ssa.UnOp)
+				if !isNot || u.Op != token.NOT {
+					break
+				}
+				v, truth = u.X, !truth
+			}
+			if ex, ok := core.ValueOrigin(v).(*ssa.Extract); ok && truth && ex.Tuple == ssa.Value(ct.sc.call) && ex.Index == flagIdx {
+				return true
+			}
+		}
+		return false
+	}
 	// the kept rows: the cut itself, or a load of a cell that only the store of the cut reaches
 	isKept := func(v ssa.Value) bool {
 		if v == ssa.Value(ct.t) || core.ValueOrigin(v) == ssa.Value(ct.t) {
+			return true
+		}
+		// the helper's first result, where its flag says the rows were cut
+		if ex, ok := core.ValueOrigin(v).(*ssa.Extract); ok && ct.sc.call != nil && ex.Tuple == ssa.Value(ct.sc.call) && ex.Index == 0 && flagIdx >= 0 {
 			return true
 		}
 		ld, ok := v.(*ssa.UnOp)
@@ -1336,51 +1397,62 @@ func hasMore(c *Ctx) hasMoreResult {
 	var encodes []*ssa.Call
 	encOK := map[*ssa.Call]bool{}
 	readsUncut := false
-	core.Instrs(ct.sc.fn, func(b *ssa.BasicBlock, _ int, ins ssa.Instruction) {
-		call, ok := ins.(*ssa.Call)
-		if !ok || call.Common().StaticCallee() == nil || call.Common().StaticCallee().Name() != "encodeNextPageToken" {
-			return
-		}
-		encodes = append(encodes, call)
-		arg := call.Common().Args[len(call.Common().Args)-1]
-		u, ok := arg.(*ssa.UnOp)
-		if !ok {
-			return
-		}
-		fa, ok := u.X.(*ssa.FieldAddr)
-		if !ok || fieldVarOf(fa) == nil {
-			return
-		}
-		res.tokenField = fieldVarOf(fa).Name()
-		el, ok := fa.X.(*ssa.UnOp)
-		if !ok {
-			return
-		}
-		ia, ok := el.X.(*ssa.IndexAddr)
-		if !ok {
-			return
-		}
-		if !isKept(ia.X) {
-			if isRows(ia.X, ct.sc) {
-				readsUncut = true
+	encScopes := []scope{ct.sc}
+	if ct.sc.call != nil {
+		encScopes = append(encScopes, scope{fn: g})
+	}
+	for _, esc := range encScopes {
+		esc := esc
+		core.Instrs(esc.fn, func(b *ssa.BasicBlock, _ int, ins ssa.Instruction) {
+			call, ok := ins.(*ssa.Call)
+			if !ok || call.Common().StaticCallee() == nil || call.Common().StaticCallee().Name() != "encodeNextPageToken" {
+				return
 			}
-			return
-		}
-		idxOK := false
-		if sub, ok := ia.Index.(*ssa.BinOp); ok && sub.Op == token.SUB {
-			if k, isK := core.IntConst(sub.Y); isK && k == 1 {
-				if l := lenOf(sub.X); l != nil && isKept(l) {
-					idxOK = true
+			encodes = append(encodes, call)
+			arg := call.Common().Args[len(call.Common().Args)-1]
+			u, ok := arg.(*ssa.UnOp)
+			if !ok {
+				return
+			}
+			fa, ok := u.X.(*ssa.FieldAddr)
+			if !ok || fieldVarOf(fa) == nil {
+				return
+			}
+			res.tokenField = fieldVarOf(fa).Name()
+			el, ok := fa.X.(*ssa.UnOp)
+			if !ok {
+				return
+			}
+			ia, ok := el.X.(*ssa.IndexAddr)
+			if !ok {
+				return
+			}
+			if !isKept(ia.X) {
+				if isRows(ia.X, esc) {
+					readsUncut = true
 				}
-				if o2, ok := perPageOf(sub.X, ct.sc); ok && o2 == obj && !ct.dropOne {
-					idxOK = true
+				return
+			}
+			idxOK := false
+			if sub, ok := ia.Index.(*ssa.BinOp); ok && sub.Op == token.SUB {
+				if k, isK := core.IntConst(sub.Y); isK && k == 1 {
+					if l := lenOf(sub.X); l != nil && isKept(l) {
+						idxOK = true
+					}
+					if o2, ok := perPageOf(sub.X, esc); ok && o2 == obj && !ct.dropOne {
+						idxOK = true
+					}
 				}
 			}
-		}
-		if _, _, under := hasMoreAt(b, ct.sc); idxOK && under {
-			encOK[call] = true
-		}
-	})
+			_, _, under := hasMoreAt(b, esc)
+			if esc.fn == g && ct.sc.call != nil && underFlag(b) {
+				under = true
+			}
+			if idxOK && under {
+				encOK[call] = true
+			}
+		})
+	}
 	res.orderOK = !readsUncut
 	if len(encodes) == 0 {
 		res.bad = append(res.bad, "no next-page token is computed where the rows are cut")
